@@ -20,7 +20,7 @@ def alphabet(m):
     evs = [('acct_sub', '1000'), ('acct_sub', '250.37'), ('acct_wd', '100.5'),
            ('create', '1'), ('create', '2')]
     for p in ('1', '2'):
-        evs += [('pf_sub', p, '400'), ('pf_sub', p, '99.99'), ('pf_wd', p, '50.25')]
+        evs += [('pf_sub', p, '400'), ('pf_sub', p, '99.995'), ('pf_wd', p, '50.25'), ('pf_wd', p, '16.667')]
     for p in ('1', '2'):
         for a, qs in (('A', (3, -3, 5, -8)), ('B', (5, -8))):
             for q in qs:
